@@ -13,6 +13,7 @@ import (
 	"runtime"
 	"strings"
 	"sync"
+	"testing/iotest"
 	"time"
 
 	"github.com/WICG/webpackage/go/signedexchange"
@@ -388,7 +389,19 @@ func run(r *mon.Run) {
 				var logbuf bytes.Buffer
 				p, pv := r.Call(fmt.Sprintf("read-ref/%d", i), file, func() {
 					mem := append([]byte{}, file...)
-					back, rerr = signedexchange.ReadExchange(bytes.NewBuffer(mem))
+					// (the reader kind rotates: a buffer, one byte per Read, half reads, data together with EOF, 1460-byte segments)
+					var src io.Reader = bytes.NewBuffer(mem)
+					switch i % 5 {
+					case 1:
+						src = iotest.OneByteReader(bytes.NewReader(mem))
+					case 2:
+						src = iotest.HalfReader(bytes.NewReader(mem))
+					case 3:
+						src = iotest.DataErrReader(bytes.NewReader(mem))
+					case 4:
+						src = &segmentReader{b: mem, seg: 1460}
+					}
+					back, rerr = signedexchange.ReadExchange(src)
 					for k := range mem {
 						mem[k] = 0xCC // the caller reuses its buffer
 					}
@@ -448,6 +461,25 @@ func run(r *mon.Run) {
 		}
 		r.Distinct("concurrent-writes")
 	}
+}
+
+// segmentReader returns at most seg bytes per Read (a network connection delivering TCP segments).
+type segmentReader struct {
+	b   []byte
+	seg int
+}
+
+func (s *segmentReader) Read(p []byte) (int, error) {
+	if len(s.b) == 0 {
+		return 0, io.EOF
+	}
+	n := len(p)
+	if n > s.seg {
+		n = s.seg
+	}
+	n = copy(p[:n], s.b)
+	s.b = s.b[n:]
+	return n, nil
 }
 
 type written struct {
